@@ -188,6 +188,19 @@ func (egcd EthGasConsumeDecorator) AnteHandle(ctx sdk.Context, tx sdk.Tx, simula
 			return ctx, errorsmod.Wrapf(err, "failed to verify the fees")
 		}
 
+		// This chain has no SDK-style staking rewards to withdraw: the dogfood staking keeper does not implement
+		// IterateDelegations and panics by design. Report a balance that cannot cover the fee as what it is, instead
+		// of running into that panic (which baseapp recovers, but only after charging the block gas meter with
+		// whatever sits on the deliver-state context's own gas meter).
+		if feeAmt := fees.AmountOf(evmDenom); feeAmt.IsPositive() {
+			if balance := egcd.bankKeeper.GetBalance(ctx, from, evmDenom); balance.Amount.LT(feeAmt) {
+				return ctx, errorsmod.Wrapf(
+					errortypes.ErrInsufficientFunds,
+					"sender balance < transaction fee (%s < %s%s)", balance, feeAmt, evmDenom,
+				)
+			}
+		}
+
 		// If the account balance is not sufficient, try to withdraw enough staking rewards
 		err = anteutils.ClaimStakingRewardsIfNecessary(ctx, egcd.bankKeeper, egcd.distributionKeeper, egcd.stakingKeeper, from, fees)
 		if err != nil {
